@@ -8,7 +8,7 @@ from pyvc.gv import GV
 from pyvc.sbytes import SBytes
 from pyvc.sstr import SStr, Fmt, Atom, str_const, str_axioms
 from pyvc.symmap import SymMap, ABSENT, alts, present_term
-from pyvc.abssets import AbsSet
+from pyvc.abssets import AbsSet, HavocState
 from pyvc.timeval import TimeVal
 from pyvc.report import Task
 from pyvc.tasks import repo, budget, result_dict
@@ -114,6 +114,11 @@ class DState:
         attrs.update({'iso_claim_filter': self.icf, 'build_network_map': self.bnm, 'started_at': self.started, 'source_to_iso_name': self.map,
                       'dump_TextIOWrapper': GV.make([(self.dump_on.t, self.dump), (z3.Not(self.dump_on.t), None)]),
                       'preferred_units': self.prefs, 'data': self.data, 'logged_unsupported_pgns': self.logged})
+        # any further attribute the real constructor creates exists here too, with unknown content (the decoder has an
+        # arbitrary history of earlier calls): a container reads as a HavocState, anything else is opaque
+        for a, is_container in constructor_attributes(r, DEC + '__init__').items():
+            if a not in attrs:
+                attrs[a] = HavocState(f'NMEA2000Decoder.{a}') if is_container else Opaque(f'decoder.{a}')
         self.decoder = Obj(r.cls('decoder', 'NMEA2000Decoder'), attrs)
         self.attr_names = set(attrs)
         # facts established by the constructor (checked by the __init__ task) and by C01 (the claim definition's id)
@@ -233,6 +238,31 @@ def explore_decode(r, combined, claim, data_len=8):
     return info, results
 
 
+def constructor_attributes(r, init_name):
+    """{attribute: is_container} for every `self.<attribute> = ...` / `self.<attribute>: T = ...` of the constructor (read
+    from the source on every run)."""
+    import ast
+    info = r.func(init_name)
+    out = {}
+    if info is None:
+        return out
+    for n in ast.walk(info.node):
+        tgts, val = [], None
+        if isinstance(n, ast.Assign):
+            tgts, val = n.targets, n.value
+        elif isinstance(n, ast.AnnAssign):
+            tgts, val = [n.target], n.value
+        elif isinstance(n, ast.AugAssign):
+            tgts = [n.target]
+        for t in tgts:
+            for t1 in (t.elts if isinstance(t, (ast.Tuple, ast.List)) else [t]):
+                if isinstance(t1, ast.Attribute) and isinstance(t1.value, ast.Name) and t1.value.id == 'self':
+                    cont = isinstance(val, (ast.Dict, ast.Set, ast.List, ast.DictComp, ast.SetComp, ast.ListComp)) or \
+                        (isinstance(val, ast.Call) and isinstance(val.func, ast.Name) and val.func.id in ('dict', 'set', 'list', 'defaultdict', 'OrderedDict', 'deque', 'bytearray'))
+                    out[t1.attr] = out.get(t1.attr, False) or cont
+    return out
+
+
 class DecodeTask(Task):
     """_decode + _call_decode_function against the filter / identity / dump specification of C10, C11, C15, C16."""
     def __init__(self, prop, combined, claim, data_len=8):
@@ -273,7 +303,7 @@ class DecodeTask(Task):
                                       meta={'note': note, 'scenario': scenario or name, 'prop': self.prop}))
             if p.kind == 'raise' and not (p.exc_name() == 'ValueError' and 'field decoder rejected' in str((p.value.attrs.get('args') or [''])[0])):
                 add('no-exception-of-its-own', False, f'_decode raises {p.exc_name()}: {str((p.value.attrs.get("args") or [""])[0])[:80]}', 'exception')
-            build = {'C10': obligations_c10, 'C11': obligations_c11, 'C15': obligations_c15, 'C16': obligations_c16, 'C08': obligations_c08, 'C17': obligations_c17, 'C07': obligations_c16}[self.prop]
+            build = {'C10': obligations_c10, 'C11': obligations_c11, 'C15': obligations_c15, 'C16': obligations_c16, 'C08': obligations_c08, 'C17': obligations_c17, 'C07': obligations_c16, 'C03': obligations_c16}[self.prop]
             build(self, p, st, add)
         for ob in obs:
             res = discharge(ob, budget(tier))
@@ -349,7 +379,12 @@ def obligations_c10(task, p, st, add):
         S = st.sets
         dropped_by_number = z3.Or(S['exclude_pgns'].pred(pgn_t), z3.And(S['include_pgns'].n > 0, S['include_pgns_ids'].n == 0, z3.Not(S['include_pgns'].pred(pgn_t))))
         add('reassembly-only-for-pgns-not-dropped-by-number', z3.Not(dropped_by_number), scenario='numeric-prefilter')
+        # ... and only frames (never pre-assembled input) of PGNs the database calls fast packets are reassembled
+        add('reassembly-only-for-frames-of-fast-packet-pgns', False if task.combined else KIND(pgn_t) == 2,
+            'input that is not a frame of a fast-packet PGN is handed to the reassembly', 'fast-decision')
         return
+    if returned and not task.combined:
+        add('frame-decoded-on-its-own-only-for-single-frame-pgns', KIND(pgn_t) == 1, 'a frame of a fast-packet PGN is decoded as if it were a whole message', 'fast-decision')
     if returned:
         add('returned-message-is-permitted', st.permitted(pgn_t, st.lid(msg)), 'a message is returned although its PGN/id is not permitted by the filter lists', 'filter-sound')
         add('returned-message-is-the-decoded-one', msg is st.msg, scenario='content')
